@@ -141,8 +141,11 @@ class Gen:
             cls = rng.choice([Min, Max])
             # no zero-valued leaves below Min/Max: whether SymPy decides the minimum to be a literal 0 is outside the model
             self.nozero += 1
-            terms = [self.expr(self.other_vec(vec) if rng.random() < self.p_bad else vec, depth - 1) for _ in range(rng.choice([2, 3]))]
+            terms = [self.expr(self.other_vec(vec) if rng.random() < self.p_bad else vec, depth - 1) for _ in range(rng.choice([1, 2]))]
             self.nozero -= 1
+            # one argument is always a bare fresh symbol (no assumptions): otherwise SymPy can decide an unevaluated Min/Max of
+            # numbers and quantities numerically and the whole node counts as a "number" for the inference
+            terms.insert(rng.randrange(len(terms) + 1), self.symbol(vec))
             return cls(*terms, evaluate=False)
         if r < 0.90:
             # applied dimensioned function, argument of any dimension (arguments are not checked by inference)
@@ -170,11 +173,17 @@ class Gen:
         if all(x == 0 for x in vec):
             self.has_fun = True
             fn = rng.choice([sin, cos, exp, log])
-            if rng.random() < self.p_bad:
-                self.has_dimensional_fun_arg = True
-                return fn(self.expr(self.other_vec(ZERO), depth - 1))
-            # the argument always contains a fresh symbol: f(number) is evaluated by SymPy (log(1) = 0, log(-1) complex)
-            return fn(self.symbol(ZERO) + self.expr(ZERO, depth - 1))
+            # no zero-valued leaves below an elementary function (sin(0*x) is literally 0 for SymPy, cos(0*x) is 1: outside the model)
+            self.nozero += 1
+            try:
+                if rng.random() < self.p_bad:
+                    self.has_dimensional_fun_arg = True
+                    ov = self.other_vec(ZERO)
+                    return fn(self.symbol(ov) + self.expr(ov, depth - 1))
+                # the argument always contains a fresh symbol: f(number) is evaluated by SymPy (log(1) = 0, log(-1) complex)
+                return fn(self.symbol(ZERO) + self.expr(ZERO, depth - 1))
+            finally:
+                self.nozero -= 1
         return self.leaf(vec)
 
 
